@@ -604,7 +604,7 @@ func (s *scope) interpretExpression(expr *Expression) pyObject {
 	// Check the optimised sites first
 	if expr.optimised != nil {
 		if expr.optimised.Constant != nil {
-			return expr.optimised.Constant
+			return freshConstant(expr.optimised.Constant)
 		} else if expr.optimised.Local != "" {
 			return s.Lookup(expr.optimised.Local)
 		} else if expr.optimised.Config != "" {
@@ -724,6 +724,19 @@ func (s *scope) interpretJoin(base string, list *List) pyObject {
 		b.WriteString(string(y))
 	})
 	return pyString(b.String())
+}
+
+// freshConstant returns the value of a precalculated constant expression. The constant itself is stored in the
+// (cached, shared) AST; lists are mutable, so each evaluation of a list literal gets a copy of its own.
+func freshConstant(c pyObject) pyObject {
+	if l, ok := c.(pyList); ok {
+		ret := make(pyList, len(l))
+		for i, v := range l {
+			ret[i] = freshConstant(v)
+		}
+		return ret
+	}
+	return c
 }
 
 // pyEqual implements ==. Lists and dicts are compared item by item, so that a frozen list or dict (as
